@@ -1,6 +1,8 @@
 package main
 
 import (
+	"runtime/debug"
+	"runtime/pprof"
 	"go/types"
 	"flag"
 	"fmt"
@@ -312,6 +314,7 @@ func (o *Obligation) ok() bool {
 }
 
 func main() {
+	debug.SetGCPercent(800)
 	if len(os.Args) < 2 {
 		fmt.Fprintln(os.Stderr, "usage: vcgo <check|dump> [flags]")
 		os.Exit(2)
@@ -365,7 +368,13 @@ func cmdCheck(args []string) int {
 	evidence := fs.String("evidence", "", "evidence file to write")
 	replayDir := fs.String("replaydir", "/verif/replay", "directory for violation/replay files")
 	seed := fs.Int64("seed", 0, "seed")
+	cpuprof := fs.String("cpuprofile", "", "write cpu profile")
 	_ = fs.Parse(args)
+	if *cpuprof != "" {
+		f, _ := os.Create(*cpuprof)
+		_ = pprof.StartCPUProfile(f)
+		defer pprof.StopCPUProfile()
+	}
 	outDir = *out
 	cfg := runConfig{repo: *repo, specDir: *spec, funcs: *funcs, tier: *tier, timeout: *timeout, tags: *tags, verbose: *verbose, prop: *prop, propsFile: *propsFile, seed: *seed}
 	if *props != "" {
